@@ -356,3 +356,226 @@ Qed.
 Theorem tokenresp_idt_no_hash_rule lh lh' issuers c ic now kw t m :
   oidc_tokenresp_verify_idt lh issuers c ic now kw t m = oidc_tokenresp_verify_idt lh' issuers c ic now kw t m.
 Proof. reflexivity. Qed.
+
+(* ================= rules over a SET of parameters =================
+   Each predicate on the presence list says something about the NUMBER of present members - for every list length
+   and every presence pattern (induction on the list, not enumeration) - and does not depend on the order in which
+   the members are named. *)
+From Coq Require Import Permutation.
+
+Lemma count_true_cons b r : count_true (b :: r) = ((if b then 1 else 0) + count_true r)%nat.
+Proof. destruct b; reflexivity. Qed.
+Lemma count_true_le_length l : (count_true l <= length l)%nat.
+Proof. induction l as [|b r IH]; [cbn; lia|]. rewrite count_true_cons. cbn [length]. destruct b; lia. Qed.
+
+(* the loop of Message.has_none_or_one_of with its latched flag, from any state of the flag *)
+Lemma none_or_one_go_count found l :
+  none_or_one_go found l = true <-> (count_true l + (if found then 1 else 0) <= 1)%nat.
+Proof.
+  revert found. induction l as [|b r IH]; intros found.
+  - cbn. destruct found; split; intros; try reflexivity; lia.
+  - rewrite count_true_cons. destruct b; cbn [none_or_one_go].
+    + destruct found.
+      * split; [discriminate|lia].
+      * rewrite IH. lia.
+    + rewrite IH. lia.
+Qed.
+
+(* has_none_or_one_of: AT MOST ONE member present *)
+Theorem has_none_or_one_of_iff l : has_none_or_one_of l = true <-> (count_true l <= 1)%nat.
+Proof. unfold has_none_or_one_of. rewrite none_or_one_go_count. lia. Qed.
+Theorem has_none_or_one_of_false_iff l : has_none_or_one_of l = false <-> (2 <= count_true l)%nat.
+Proof.
+  destruct (has_none_or_one_of l) eqn:E.
+  - apply has_none_or_one_of_iff in E. split; [discriminate|lia].
+  - split; [intros _|reflexivity]. destruct (Nat.le_gt_cases (count_true l) 1) as [H|H]; [|lia].
+    apply has_none_or_one_of_iff in H. congruence.
+Qed.
+Theorem has_at_least_one_of_iff l : has_at_least_one_of l = true <-> (1 <= count_true l)%nat.
+Proof.
+  unfold has_at_least_one_of. induction l as [|b r IH]; [cbn; split; [discriminate|lia]|].
+  rewrite count_true_cons. cbn [existsb]. destruct b; cbn [orb]; [split; [lia|reflexivity]|]. rewrite IH. lia.
+Qed.
+Theorem has_none_of_iff l : has_none_of l = true <-> count_true l = 0%nat.
+Proof.
+  unfold has_none_of. rewrite negb_true_iff. fold (has_at_least_one_of l).
+  destruct (has_at_least_one_of l) eqn:E.
+  - apply has_at_least_one_of_iff in E. split; [discriminate|lia].
+  - split; [intros _|reflexivity]. destruct (count_true l) eqn:C; [reflexivity|].
+    assert (X : has_at_least_one_of l = true) by (apply has_at_least_one_of_iff; lia). congruence.
+Qed.
+Theorem has_all_of_iff l : has_all_of l = true <-> count_true l = length l.
+Proof.
+  unfold has_all_of. induction l as [|b r IH]; [cbn; tauto|].
+  rewrite count_true_cons. cbn [forallb length]. pose proof (count_true_le_length r). destruct b; cbn [andb].
+  - rewrite IH. lia.
+  - split; [discriminate|lia].
+Qed.
+Theorem has_all_or_none_of_iff l :
+  has_all_or_none_of l = true <-> count_true l = 0%nat \/ count_true l = length l.
+Proof. unfold has_all_or_none_of. rewrite orb_true_iff, has_all_of_iff, has_none_of_iff. tauto. Qed.
+Theorem has_exactly_one_of_iff l : has_exactly_one_of l = true <-> count_true l = 1%nat.
+Proof. unfold has_exactly_one_of. rewrite andb_true_iff, has_at_least_one_of_iff, has_none_or_one_of_iff. lia. Qed.
+
+(* the order in which the members are named does not matter *)
+Lemma count_true_perm l l' : Permutation l l' -> count_true l = count_true l'.
+Proof. induction 1; rewrite ?count_true_cons; lia. Qed.
+Theorem has_none_or_one_of_perm l l' : Permutation l l' -> has_none_or_one_of l = has_none_or_one_of l'.
+Proof.
+  intros P. apply eq_true_iff_eq. rewrite !has_none_or_one_of_iff, (count_true_perm _ _ P). tauto.
+Qed.
+Theorem msg_has_none_or_one_of_perm ks ks' m :
+  Permutation ks ks' -> msg_has_none_or_one_of ks m = msg_has_none_or_one_of ks' m.
+Proof. intros P. apply has_none_or_one_of_perm. unfold presence. now apply Permutation_map. Qed.
+(* ... and the helper on a message: true exactly when at most one of the named parameters is in the message *)
+Theorem msg_has_none_or_one_of_iff ks m :
+  msg_has_none_or_one_of ks m = true <-> (count_true (presence ks m) <= 1)%nat.
+Proof. apply has_none_or_one_of_iff. Qed.
+
+(* ---- the classes' rules through the set predicates ---- *)
+(* RegistrationResponse: ALL OR NONE of registration_client_uri / registration_access_token *)
+Lemma regresp_rule_set m :
+  Bool.eqb (has "registration_client_uri" m) (has "registration_access_token" m)
+  = has_all_or_none_of (presence [PS "registration_client_uri"; PS "registration_access_token"] m).
+Proof.
+  unfold has, presence, has_all_or_none_of, has_all_of, has_none_of. cbn [List.map forallb existsb].
+  destruct (has_key (PS "registration_client_uri") m), (has_key (PS "registration_access_token") m); reflexivity.
+Qed.
+Theorem regresp_set_rule c m :
+  regresp_verify c m = Ok tt <->
+  response_verify c m = Ok tt
+  /\ let n := count_true (presence [PS "registration_client_uri"; PS "registration_access_token"] m) in
+     (n = 0 \/ n = 2)%nat.
+Proof.
+  rewrite regresp_verify_iff. cbv zeta. rewrite <- (Bool.eqb_true_iff (has _ m)), regresp_rule_set.
+  rewrite has_all_or_none_of_iff. reflexivity.
+Qed.
+
+(* LogoutToken: AT LEAST ONE of sub / sid *)
+Theorem logout_set_rule c now kw m :
+  logout_typed kw m = true -> logout_verify c now kw m = Ok tt ->
+  (1 <= count_true (presence [PS "sub"; PS "sid"] m))%nat.
+Proof.
+  intros T V. destruct (logout_accepts_only c now kw m T V) as (_ & _ & H).
+  apply has_at_least_one_of_iff. unfold has_at_least_one_of, presence, has in *. cbn [List.map existsb].
+  destruct H as [-> | ->]; [reflexivity|]. rewrite orb_true_r. reflexivity.
+Qed.
+
+(* JWTSecuredAuthorizationRequest: AT LEAST ONE of request / request_uri - accepted only with one, refused with none *)
+Theorem jar_set_rule c roc p m m' :
+  jar_verify c roc p m = Ok m' -> (1 <= count_true (presence [PS "request"; PS "request_uri"] m))%nat.
+Proof.
+  intros V. apply has_at_least_one_of_iff. unfold has_at_least_one_of, presence. cbn [List.map existsb].
+  unfold jar_verify in V. destruct (has_key (PS "request") m); [reflexivity|].
+  destruct (has_key (PS "request_uri") m); [reflexivity|discriminate].
+Qed.
+Theorem jar_set_rule_none c roc p m :
+  count_true (presence [PS "request"; PS "request_uri"] m) = 0%nat -> jar_verify c roc p m = Err EMissingAttribute.
+Proof.
+  intros H. apply has_none_of_iff in H. unfold has_none_of, presence in H. cbn [List.map existsb] in H.
+  unfold jar_verify. destruct (has_key (PS "request") m); [discriminate|].
+  destruct (has_key (PS "request_uri") m); [discriminate|reflexivity].
+Qed.
+
+(* OauthClientInformationResponse: client_secret comes with client_secret_expires_at;
+   device_authorization.AccessTokenRequest: device_code comes with BOTH grant_type and client_id *)
+Theorem clientinfo_accepts_only c m :
+  clientinfo_verify c m = Ok tt ->
+  clientmeta_verify c m = Ok tt /\ (has "client_secret" m = true -> has "client_secret_expires_at" m = true).
+Proof.
+  unfold clientinfo_verify. destruct (clientmeta_verify c m) as [[]|e|]; cbn [bind]; try discriminate.
+  intros H. apply run_checks_iff in H. unfold all_hold, clientinfo_checks in H. cbn [forallb fst] in H.
+  rewrite andb_true_r in H. split; [reflexivity|]. intros S. rewrite S in H. cbn [implb] in H.
+  unfold has_all_of, presence in H. cbn [List.map forallb] in H. rewrite andb_true_r in H. exact H.
+Qed.
+Theorem device_accepts_only c m :
+  device_verify c m = Ok tt ->
+  generic_verify c m = Ok tt
+  /\ (has "device_code" m = true -> has "grant_type" m = true /\ has "client_id" m = true).
+Proof.
+  unfold device_verify. destruct (generic_verify c m) as [[]|e|]; cbn [bind]; try discriminate.
+  intros H. apply run_checks_iff in H. unfold all_hold, device_checks in H. cbn [forallb fst] in H.
+  rewrite andb_true_r in H. split; [reflexivity|]. intros S. rewrite S in H. cbn [implb] in H.
+  unfold has_all_of, presence in H. cbn [List.map forallb] in H. rewrite andb_true_r in H.
+  now apply andb_true_iff in H.
+Qed.
+Theorem clientmeta_accepts_only c m :
+  clientmeta_typed m = true -> clientmeta_verify c m = Ok tt ->
+  generic_verify c m = Ok tt
+  /\ (forall g, In g (strs (list_of (get "grant_types" m))) -> g = PS "authorization_code" \/ g = PS "implicit" ->
+      has "redirect_uris" m = true).
+Proof.
+  intros T V. unfold clientmeta_verify in V. apply (guarded_checks_iff _ _ _ T) in V as [G H].
+  split; [exact G|]. intros g Ig Hg. unfold all_hold, clientmeta_checks in H. cbn [forallb fst] in H.
+  rewrite andb_true_r in H.
+  assert (X : existsb (fun g0 => str_in g0 [PS "authorization_code"; PS "implicit"]) (strs (list_of (get "grant_types" m))) = true).
+  { apply existsb_exists. exists g. split; [exact Ig|]. apply str_in_In. destruct Hg as [-> | ->]; cbn; tauto. }
+  rewrite X in H. cbn [implb] in H. unfold has_all_of, presence in H. cbn [List.map forallb] in H.
+  rewrite andb_true_r in H. exact H.
+Qed.
+
+(* ---- CIBA AuthenticationRequest ---- *)
+Lemma presence_aset_other k v ks m : ~ In k ks -> presence ks (aset k v m) = presence ks m.
+Proof.
+  intros N. unfold presence. apply map_ext_in. intros a Ia. apply has_key_aset_other. intro E. subst. contradiction.
+Qed.
+Lemma ciba_hint_keeps_hints ic ht m m' : ciba_hint ic ht m = Ok m' -> presence ciba_hints m' = presence ciba_hints m.
+Proof.
+  unfold ciba_hint. destruct (get "id_token_hint" m) as [[| | |s| | |]|]; try (intros H; inversion H; reflexivity).
+  destruct (open_token ht) as [hp|e|]; cbn [bind]; try discriminate.
+  destruct (construct ic (snd hp)) as [o|e|]; cbn [bind]; try discriminate.
+  intros H. inversion H. apply presence_aset_other. vm_compute. intuition discriminate.
+Qed.
+Lemma ciba_hint_keeps k ic ht m m' :
+  PS k <> verified_id_token_hint -> ciba_hint ic ht m = Ok m' -> has k m' = has k m.
+Proof.
+  intros N. unfold ciba_hint. destruct (get "id_token_hint" m) as [[| | |s| | |]|]; try (intros H; inversion H; reflexivity).
+  destruct (open_token ht) as [hp|e|]; cbn [bind]; try discriminate.
+  destruct (construct ic (snd hp)) as [o|e|]; cbn [bind]; try discriminate.
+  intros H. inversion H. unfold has. apply has_key_aset_other. congruence.
+Qed.
+
+(* an accepted CIBA authentication request: the generic check held; in the message AS IT STANDS AFTERWARDS (the
+   claims of a request object copied in) AT MOST ONE of the three hints is present - whichever they are, adjacent
+   in the rule's list or not; a request object came with nothing but client-authentication parameters beside it;
+   ping / push mode has its client_notification_token *)
+Theorem ciba_accepts_only c rjc ic kw rt ht m m' :
+  ciba_authn_verify c rjc ic kw rt ht m = Ok m' ->
+  generic_verify c m = Ok tt
+  /\ (count_true (presence ciba_hints m') <= 1)%nat
+  /\ (has "request" m = true -> count_true (presence (ciba_inside_only c) (adel verified_request m)) = 0%nat)
+  /\ (ciba_mode_needs_token kw = true -> has "client_notification_token" m' = true).
+Proof.
+  unfold ciba_authn_verify. destruct (generic_verify c m) as [[]|e|]; cbn [bind]; try discriminate.
+  destruct (ciba_unpack c rjc rt m) as [m1|e|] eqn:U; cbn [bind]; try discriminate.
+  destruct (run_checks (ciba_hint_checks m1)) as [[]|e|] eqn:R1; cbn [bind]; try discriminate.
+  destruct (ciba_hint ic ht m1) as [m2|e|] eqn:Hh; cbn [bind]; try discriminate.
+  destruct (run_checks (ciba_mode_checks kw m2)) as [[]|e|] eqn:R2; cbn [bind]; try discriminate.
+  intros H. inversion H; subst m'. clear H.
+  apply run_checks_iff in R1, R2. unfold all_hold, ciba_hint_checks, ciba_mode_checks in R1, R2.
+  cbn [forallb fst] in R1, R2. rewrite andb_true_r in R1, R2.
+  split; [reflexivity|]. split; [|split].
+  - rewrite (ciba_hint_keeps_hints _ _ _ _ Hh). now apply has_none_or_one_of_iff.
+  - intros Rq. unfold ciba_unpack in U. rewrite Rq in U. apply has_none_of_iff.
+    destruct (has_none_of (presence (ciba_inside_only c) (adel verified_request m))); [reflexivity|discriminate].
+  - intros Md. rewrite Md in R2. exact R2.
+Qed.
+(* ... and conversely every pattern with two or more hints is refused - (1,0,1) as well as the adjacent pairs *)
+Theorem ciba_two_hints_refused c rjc ic kw rt ht m :
+  generic_verify c m = Ok tt -> has "request" m = false -> (2 <= count_true (presence ciba_hints m))%nat ->
+  ciba_authn_verify c rjc ic kw rt ht m = Err ValueError.
+Proof.
+  intros G Rq N. unfold ciba_authn_verify, ciba_unpack. rewrite G, Rq. cbn [bind].
+  apply has_none_or_one_of_false_iff in N. unfold ciba_hint_checks. rewrite N. reflexivity.
+Qed.
+(* the other set predicates, together *)
+Theorem set_predicates_count l :
+  (has_at_least_one_of l = true <-> (1 <= count_true l)%nat)
+  /\ (has_none_of l = true <-> count_true l = 0%nat)
+  /\ (has_all_of l = true <-> count_true l = length l)
+  /\ (has_all_or_none_of l = true <-> count_true l = 0%nat \/ count_true l = length l)
+  /\ (has_exactly_one_of l = true <-> count_true l = 1%nat).
+Proof.
+  repeat split; try apply has_at_least_one_of_iff; try apply has_none_of_iff; try apply has_all_of_iff;
+    try apply has_all_or_none_of_iff; try apply has_exactly_one_of_iff.
+Qed.
